@@ -53,6 +53,15 @@ CHECKS = {
  "C18": dict(technique="model-based property testing (proptest) of textDocument/completion of the real server on every cursor line: region ground truth from the renderer, offered set vs the reference model's visible set with parameter / self / scope filters",
              text="Generated-input search over workspaces and cursor lines (plus incomplete documents); oracle: by-construction region class per line and set algebra against the model. Exploration only.",
              note="trusted: reference model (model.rs), the renderer's region table", ref="DESIGN.md 4 C18", engine="vengine"),
+ "C09": dict(technique="schedule-controlled property testing (proptest-generated schedules over an instrumented DashMap, owned scheduler at shard-lock granularity): quiescent index must equal some sequential execution",
+             text="Generated-input search over file contents AND thread schedules: the harness owns the interleaving of the DashMap operations of 2-3 concurrent analyses (random and context-bounded schedules, 2-shard and all-keys-collide placement); oracle: membership in the set of sequential outcomes computed on the real code. Exploration; the thorough tier enumerates every <=2-preemption schedule of sampled task pairs.",
+             note="trusted: shims/dashmap (dashmap 6.1.0 + additive hooks), the scheduler in verif_hooks.rs; atomicity between two lock acquisitions of one thread", ref="DESIGN.md 4 C09", engine="vsched"),
+ "C10": dict(technique="schedule-controlled property testing (proptest-generated schedules, owned scheduler): scan-path analysis vs editor analysis of ONE file; scan-then-editor state and +1-change restoration as oracles",
+             text="Generated-input search over disk/buffer texts and schedules of the scan worker and the editor analysis of the same document; oracle: quiescent state == sequential scan->editor state, and one more change == single-analysis state of a fresh index. Exploration only.",
+             note="trusted: shims/dashmap + scheduler; the verif hook exposing the scan's no-cleanup path", ref="DESIGN.md 4 C10", engine="vsched"),
+ "C12": dict(technique="property-based testing with an invariant over recorded lock nestings (instrumented DashMap), generated schedules with deterministic deadlock detection, step-bounded cyclic inputs, and generated LSP sessions against the real server built on the instrumented DashMap in all-keys-collide mode",
+             text="Generated-input search over workloads, schedules, cyclic inputs and pipelined server sessions; oracle: no conflicting re-entrant acquisition per map, no cycle of conflicting waits between maps, no controller deadlock, every operation within a step bound. Exploration only: potential deadlocks are inferred from nestings that some generated run executed.",
+             note="trusted: shims/dashmap hooks; reader-preferring semantics of dashmap's lock (read-in-read is safe); the wrapper crate sched/server compiling the real main.rs/providers against the shim", ref="DESIGN.md 4 C12", engine="vsched"),
 }
 PENDING = {
 }
@@ -85,7 +94,8 @@ def main():
             "add_only": True,
         },
         "engines": [
-            {"name": "vengine", "path": "engine/", "serves_properties": sorted(CHECKS), "kind_free_text": "Rust harness linking the /repo library; proptest generators, reference model, metamorphic oracles, LSP/CLI drivers"},
+            {"name": "vengine", "path": "engine/", "serves_properties": sorted(k for k in CHECKS if CHECKS[k]["engine"] == "vengine"), "kind_free_text": "Rust harness linking the /repo library; proptest generators, reference model, CPython oracle, metamorphic oracles, LSP/CLI drivers"},
+            {"name": "vsched", "path": "sched/", "serves_properties": sorted(k for k in CHECKS if CHECKS[k]["engine"] == "vsched"), "kind_free_text": "Rust harness linking the /repo library against shims/dashmap (instrumented dashmap 6.1.0): owned scheduler, lock-nesting log, instrumented real server"},
         ],
         "checks": checks,
         "not_applicable": na,
